@@ -2116,6 +2116,12 @@ pub fn try_parse<I>(pattern: I, flags: api::Flags) -> Result<ir::Regex, Error>
 where
     I: Iterator<Item = u32> + Clone,
 {
+    // The `v` flag implies everything `u` does: strict grammar, code point semantics and
+    // simple case folding.
+    let mut flags = flags;
+    if flags.unicode_sets {
+        flags.unicode = true;
+    }
     let mut p = Parser {
         input: pattern.peekable(),
         flags,
